@@ -7,5 +7,8 @@ export PYTHONDONTWRITEBYTECODE=1
 cd lean || exit 1
 # every module of the project: property files and whole-tree proofs are not imported by the library root
 mods=$(find Pypika -name '*.lean' | sed 's/\.lean$//; s#/#.#g' | tr '\n' ' ')
-lake build Pypika driver $mods 2>&1 | tail -5
-test -x .lake/build/bin/driver
+lake build Pypika driver $mods > .lake/setup-build.log 2>&1
+rc=$?
+tail -5 .lake/setup-build.log
+test -x .lake/build/bin/driver || exit 1
+exit $rc
